@@ -10,7 +10,7 @@ PROPS = "Props/C17.v"
 COQ_CHECK = ("Model.C17x", "checkx")
 COQ_FALLBACK = None
 COQ_IMPORTS = "From PAV Require Import Base.NumOps Model.C17.\nNotation case := casex (only parsing)."      # the wrapped cases of Model/C17x.v
-SHARD = 120
+SHARD = 90
 RULE = ("profile objects are generated classes whose methods are decorated with aa.grid_dec.to_array / to_grid / to_vector_yx / "
         "project_grid / relocate_to_radial_minimum / transform (alone and stacked to_X(transform(relocate(f))), also with a nested "
         "second decorated method); the user function is drawn from a family that makes any pairing error visible (affine and quadratic "
@@ -419,8 +419,9 @@ def profile_class(aa, rmin):
         def __init__(self, u, rad=("euclid",)):
             self.u = u; self.rad = rad
             self.seen = None; self.seen_obj = None; self.calls = 0; self.tf_calls = 0
-        def _f(self, grid):
+        def _f(self, grid, args=(), kwargs=None):
             self.calls += 1
+            self.got = (args, dict(kwargs or {}))
             self.seen_obj = grid
             a = to_nd(grid)
             self.seen = a.reshape(-1, 2)
@@ -450,44 +451,44 @@ def profile_class(aa, rmin):
             return grid.with_new_array(arr) if hasattr(grid, "with_new_array") else arr
         # single decorators
         @dec.to_array
-        def m_array(self, grid, *args, **kwargs): return self._f(grid)
+        def m_array(self, grid, *args, **kwargs): return self._f(grid, args, kwargs)
         @dec.to_grid
-        def m_grid(self, grid, *args, **kwargs): return self._f(grid)
+        def m_grid(self, grid, *args, **kwargs): return self._f(grid, args, kwargs)
         @dec.to_vector_yx
-        def m_vector(self, grid, *args, **kwargs): return self._f(grid)
+        def m_vector(self, grid, *args, **kwargs): return self._f(grid, args, kwargs)
         @dec.project_grid
-        def m_project(self, grid, *args, **kwargs): return self._f(grid)
+        def m_project(self, grid, *args, **kwargs): return self._f(grid, args, kwargs)
         @dec.relocate_to_radial_minimum
-        def m_relocate(self, grid, *args, **kwargs): return self._f(grid)
+        def m_relocate(self, grid, *args, **kwargs): return self._f(grid, args, kwargs)
         # the usual stack
         @dec.transform
         @dec.relocate_to_radial_minimum
-        def inner(self, grid, *args, **kwargs): return self._f(grid)
+        def inner(self, grid, *args, **kwargs): return self._f(grid, args, kwargs)
         @dec.to_array
         @dec.transform
         @dec.relocate_to_radial_minimum
-        def s_array(self, grid, *args, **kwargs): return self._f(grid)
+        def s_array(self, grid, *args, **kwargs): return self._f(grid, args, kwargs)
         @dec.to_grid
         @dec.transform
         @dec.relocate_to_radial_minimum
-        def s_grid(self, grid, *args, **kwargs): return self._f(grid)
+        def s_grid(self, grid, *args, **kwargs): return self._f(grid, args, kwargs)
         @dec.to_vector_yx
         @dec.transform
         @dec.relocate_to_radial_minimum
-        def s_vector(self, grid, *args, **kwargs): return self._f(grid)
+        def s_vector(self, grid, *args, **kwargs): return self._f(grid, args, kwargs)
         # ... whose body calls a second decorated method, handing its kwargs on (is_transformed travels with them)
         @dec.to_array
         @dec.transform
         @dec.relocate_to_radial_minimum
-        def n_array(self, grid, *args, **kwargs): return self.inner(grid, **kwargs)
+        def n_array(self, grid, *args, **kwargs): return self.inner(grid, *args, **kwargs)
         @dec.to_grid
         @dec.transform
         @dec.relocate_to_radial_minimum
-        def n_grid(self, grid, *args, **kwargs): return self.inner(grid, **kwargs)
+        def n_grid(self, grid, *args, **kwargs): return self.inner(grid, *args, **kwargs)
         @dec.to_vector_yx
         @dec.transform
         @dec.relocate_to_radial_minimum
-        def n_vector(self, grid, *args, **kwargs): return self.inner(grid, **kwargs)
+        def n_vector(self, grid, *args, **kwargs): return self.inner(grid, *args, **kwargs)
 
     cls = type(name, (Base,), {})
     _CLS[name] = cls
@@ -501,9 +502,13 @@ def angle_deg(a):
     return q.get((c, s), math.degrees(math.atan2(s, c)))
 
 # --------------------------------------------------------------------------------------------- running one call
-def call(fn, grid):
+class Sentinel:
+    """an opaque extra argument of the user's method"""
+    def __init__(self, tag): self.tag = tag
+def call(fn, grid, args=(), kwargs=None, by_keyword=False):
     try:
-        return ("ok", fn(grid))
+        if by_keyword: return ("ok", fn(grid=grid, **(kwargs or {})))        # how PyAutoGalaxy calls its profiles' methods
+        return ("ok", fn(grid, *args, **(kwargs or {})))
     except Exception as e:   # noqa
         return ("raise", exn_name(e), type(e).__name__)
 
@@ -552,7 +557,7 @@ def profile_obj(aa, ci, pool):
         if pool is not None and ci.get("o") is not None: pool[key] = obj
     obj.u = ci["u"]; obj.rad = tuple(ci["rad"]) if op == "relocate" else ("euclid",)
     obj.wrap_ok = op != "relocate"        # relocate alone hands the function's own result back: nothing to unwrap
-    obj.seen = None; obj.seen_obj = None; obj.calls = 0; obj.tf_calls = 0
+    obj.seen = None; obj.seen_obj = None; obj.calls = 0; obj.tf_calls = 0; obj.got = None
     for a in ("centre", "angle"):
         if a in obj.__dict__: del obj.__dict__[a]
     return obj
@@ -582,9 +587,27 @@ def do_call(aa, ci, grid, sh, pool=None):
     else:
         raise ValueError(op)
     attrs = (getattr(obj, "centre", "absent"), getattr(obj, "angle", "absent"))
+    # the user's method may take further arguments: the decorators hand them on untouched.  Two things the code does that are not
+    # C17 clauses (the property quantifies over functions of a grid) and are therefore kept out of the inputs: transform replaces
+    # the caller's keyword arguments by its own is_transformed flag (no keywords go into a stack), and the three makers are built
+    # with `Maker(func=func, obj=obj, grid=grid, *args, **kwargs)`, so that ANY further positional argument raises "TypeError:
+    # got multiple values for argument 'func'" (positional extras only through project_grid / relocate_to_radial_minimum)
+    by_kw = bool(ci.get("kw"))
+    xargs, xkw, xlist = (), {}, [1, 2]
+    if ci.get("xargs"):
+        if not by_kw and op in ("project", "relocate"): xargs = (Sentinel("a"), xlist)
+        if op != "stack": xkw = {"pav_extra": Sentinel("k"), "pav_list": xlist}
     before = fingerprint(grid)
-    r = call(fn, grid)
+    r = call(fn, grid, xargs, xkw, by_kw)
     after = fingerprint(grid)
+    if obj.calls == 1 and obj.got is not None:
+        ga, gk = obj.got
+        if op == "stack": gk = {k: v for k, v in gk.items() if k != "is_transformed"}
+        if len(ga) != len(xargs) or any(a is not b for a, b in zip(ga, xargs)):
+            py_ok = False; notes.append("the user's method did not receive the caller's extra positional arguments")
+        if set(gk) != set(xkw) or any(gk[k] is not xkw[k] for k in xkw):
+            py_ok = False; notes.append(f"the user's method did not receive the caller's keyword arguments (got {sorted(gk)})")
+        if xlist != [1, 2]: py_ok = False; notes.append("the caller's list argument was modified")
     if before != after:
         py_ok = False
         what = [n for n, a, b in zip(("type", "array type", "dtype", "shape", "array content", "_is_transformed", "mask object", "mask content", "mask shape",
@@ -897,11 +920,13 @@ def add_sub(rng, g, p=0.35):
         g["sub"] = rng.choice(["pav", "pav", "pav2"])
         return g
     sub = rng.choice(["pav", "pav2", "uniform", "uniform", "upscale", "upscale", "pavuniform"])
-    if sub == "upscale" and g.get("dtype") == "int": sub = "uniform"
+    # upscale: factor 1 / 2 / 4, dyadic pixel scales and sparse points on the 1/16 lattice, so that the library's double arithmetic
+    # is exact and the object holds exactly `upscaled(...)` (histories compare the array read back after a call exactly)
+    if sub == "upscale" and (g.get("dtype") == "int" or any(F(v).denominator > 16 for q in g["cs"][:3] for v in q)): sub = "uniform"
     g["sub"] = sub
     if sub == "upscale":
-        f = rng.choice([1, 2, 2, 3, 4])
-        ns = max(1, min(3, len(g["cs"]) // (f * f)))
+        f = rng.choice([1, 2, 2, 4])
+        ns = max(1, min(3 if f < 4 else 1, len(g["cs"]) // (f * f)))
         g["sparse"] = g["cs"][:ns]; g["f"] = f; g["ups"] = [rng.choice(PS), rng.choice(PS)]
         g["cs"] = [[S(a), S(b)] for a, b in upscaled(g["sparse"], f, g["ups"])]
     elif sub in ("uniform", "pavuniform"):
@@ -909,6 +934,11 @@ def add_sub(rng, g, p=0.35):
         if rng.random() < 0.7: g["uni"]["ps"] = [rng.choice(PS), rng.choice(PS)]
         if rng.random() < 0.5: g["uni"]["shape"] = [rng.randint(1, 6), rng.randint(1, 6)]
     return g
+def flag_call(rng, ci):
+    """how the method is called: positionally / by keyword (grid=...), with further arguments of the user's method"""
+    if rng.random() < 0.3: ci["kw"] = True
+    if rng.random() < 0.3: ci["xargs"] = True
+    return ci
 def flag_u(rng, u, g, op):
     """result KINDS the decorators must take like plain ndarrays / lists: a list SUBCLASS, autoarray structures as values"""
     u = dict(u)
@@ -940,15 +970,18 @@ def scale_step(st, un):
     return st
 
 # ---- histories
-def rand_call(rng, g, centre0, homogeneous=False):
-    """one decorated call that the grid kind admits"""
+def rand_call(rng, g, centre0, homogeneous=False, like=None):
+    """one decorated call that the grid kind admits; like = an earlier call step: the same method of the same profile object with
+    the same profile attributes again (the user function is drawn anew), if this grid kind admits it"""
     k = g["k"]
     native2d = k in ("mask", "2d") and (g.get("store", "slim") != "slim" or "native" in g.get("derive", []))
     if native2d: ops = ["make", "make", "project"]
     elif k == "1d": ops = ["make", "make", "project", "project", "stack", "stack"]
     elif k == "raw": ops = ["make", "relocate", "relocate", "stack", "stack", "project"]
     else: ops = ["make", "project", "relocate", "relocate", "stack", "stack"]
-    op = rng.choice(ops)
+    if like is not None and (like["op"] not in ops or (k == "1d" and like["op"] == "stack" and like.get("dec") == "vector")): like = None
+    op = like["op"] if like else rng.choice(ops)
+    L = like or {}
     def ufun(want, **kw):
         u = rand_ufun(rng, want, **kw)
         if homogeneous:
@@ -957,24 +990,28 @@ def rand_call(rng, g, centre0, homogeneous=False):
                     if f[j][0] == "quad": f[j] = ["cum", f[j][1], f[j][2]]
                     elif f[j][0] == "aff": f[j] = ["aff", f[j][1], f[j][2], "0"]
         return u
-    st = {"t": "call", "op": op, "o": rng.choice([0, 0, 1, None])}
+    st = {"t": "call", "op": op, "o": L["o"] if like else rng.choice([0, 0, 1, None])}
     near = [S(centre0[0] + F(rng.randint(-6, 6), 4)), S(centre0[1] + F(rng.randint(-6, 6), 4))]
     if op == "make":
-        st["dec"] = rng.choice(["array", "grid", "vector"])
+        st["dec"] = L.get("dec") or rng.choice(["array", "grid", "vector"])
         st["u"] = ufun("V" if st["dec"] == "array" else "P", allow_drop=rng.random() < 0.1)
     elif op == "project":
         st["centre"] = rng.choice(["absent", None, near, near]); st["angle"] = rng.choice(["absent", None] + [list(a) for a in ANGLES])
+        if like: st["centre"] = L["centre"]; st["angle"] = L["angle"]
         st["u"] = ufun(rng.choice("VP") if k == "irr" else "V", allow_list=False)
     elif op == "relocate":
         st["rmin"] = rng.choice(RMINS + RMINS + [None]); st["rad"] = ["euclid"] if rng.random() < 0.75 else ["ellip", rng.choice(["2", "1/2"])]
+        if like: st["rmin"] = L["rmin"]; st["rad"] = L["rad"]
         st["u"] = ufun(rng.choice("VP")) if rng.random() < 0.7 else IDENT
     else:
         st["dec"] = rng.choice(["array", "grid"] if k == "1d" else ["array", "grid", "vector"])
         st["rmin"] = rng.choice(RMINS + RMINS + [None]); st["centre"] = near; st["angle"] = list(rng.choice(ANGLES))
         st["nested"] = rng.random() < 0.5
+        if like:
+            for f in ("dec", "rmin", "centre", "angle", "nested"): st[f] = L[f]
         st["u"] = ufun("V" if st["dec"] == "array" else "P")
     st["u"] = flag_u(rng, st["u"], g, op)
-    return st
+    return flag_call(rng, st)
 
 def n_stored(g):
     if "n" in g: return g["n"]
@@ -990,6 +1027,7 @@ def rand_hist(rng, e=0, kinds=("mask", "2d", "irr", "1d", "raw"), force_native1d
     else: g0 = add_variant(rng, g0, native2d=rng.random() < 0.3, p_plain=0.4)
     g0 = add_sub(rng, g0)
     grids = [g0]
+    locked = False
     if rng.random() < 0.35:
         # a second grid of the same kind on an equal mask with other contents, served by the same profile objects
         g1 = dict(g0)
@@ -1007,12 +1045,18 @@ def rand_hist(rng, e=0, kinds=("mask", "2d", "irr", "1d", "raw"), force_native1d
         if g1["k"] == "1d" and rng.random() < 0.5: g1 = native_1d(rng, g1)
         else: g1 = add_variant(rng, g1, native2d=rng.random() < 0.3, p_plain=0.5)
         grids.append(add_sub(rng, g1))
+        # ... deliberately: the SAME method of the SAME profile object, with the same profile attributes, on the two grids in turn
+        locked = rng.random() < 0.6
     steps = []
-    ncall = rng.randint(min_calls, 4)
+    ncall = rng.randint(max(min_calls, 2) if locked else min_calls, 4)
+    first = None
     for c in range(ncall):
-        gi = rng.randrange(len(grids))
-        st = rand_call(rng, grids[gi], c0, homogeneous=e != 0); st["gi"] = gi
-        if c and rng.random() < 0.4:     # the same call again (perhaps through another profile object)
+        gi = (c + ncall) % 2 if locked else rng.randrange(len(grids))
+        st = rand_call(rng, grids[gi], c0, homogeneous=e != 0, like=first if locked else None); st["gi"] = gi
+        if locked and first is None:
+            if st["o"] is None: st["o"] = 0
+            first = st
+        if c and not locked and rng.random() < 0.4:     # the same call again (perhaps through another profile object)
             st = dict(steps[[j for j, x in enumerate(steps) if x["t"] == "call"][-1]], o=st["o"]); st.pop("feed", None); gi = st["gi"]
         steps.append(st)
         gk = grids[gi]
@@ -1053,7 +1097,9 @@ def full_pts(rng, n):
     def one():
         t = rng.random()
         if t < 0.08: return 0.0
-        return rng.uniform(-8, 8) if t < 0.8 else rng.uniform(-1, 1) * 10 ** rng.randint(-6, 3)
+        # |coordinate| <= 100: a quadratic user function with coefficient 16 stays below 2e5, where a double's rounding error is
+        # far inside the absolute tolerance 1e-9 (huge magnitudes: the scaled histories, with homogeneous functions)
+        return rng.uniform(-8, 8) if t < 0.8 else rng.uniform(-1, 1) * 10 ** rng.randint(-6, 2)
     return [[S(Fraction(one())), S(Fraction(one()))] for _ in range(n)]
 
 def force_sub(rng, g, sub):
@@ -1077,7 +1123,7 @@ def sweep_case(rng, npf, k, sub, j, rep, op, dec):
     elif op == "relocate": inp.update(rmin=rmin, rad=["euclid"])
     elif op == "stack":
         inp.update(rmin=rmin, centre=[S(centre[0]), S(centre[1])], angle=list(rng.choice(ANGLES)), nested=bool((j + rep) % 2))
-    return inp
+    return flag_call(rng, inp)
 def sub_sweep(rng, N):
     npf = near_pts(RMINS, p0=0.0)
     calls = [("make", "array"), ("make", "grid"), ("make", "vector"), ("project", None), ("relocate", None),
@@ -1106,7 +1152,7 @@ def gen_inputs(tier, rng):
         else: g = add_variant(rng, g, native2d=True)
         g = add_sub(rng, g, p=0.4)
         u = flag_u(rng, rand_ufun(rng, "V" if dec == "array" else "P", allow_drop=(i % 7 == 0)), g, "make")
-        yield {"op": "make", "dec": dec, "grid": g, "u": u}
+        yield flag_call(rng, {"op": "make", "dec": dec, "grid": g, "u": u})
     # ---- project_grid
     for i in range(100 * N):
         g = rand_grid(rng, kinds=("mask", "mask", "2d", "irr", "1d", "1d", "raw"), iso=0.3)
@@ -1122,8 +1168,8 @@ def gen_inputs(tier, rng):
         if g["k"] == "1d" and i % 2: g = native_1d(rng, g)
         else: g = add_variant(rng, g, native2d=True, p_plain=0.6)
         g = add_sub(rng, g); u = flag_u(rng, u, g, "project")
-        yield {"op": "project", "grid": g, "u": u, "centre": centre, "angle": angle,
-               "rpc": "default" if (i % 5 == 0 and g["k"] in ("mask", "2d")) else bool(i % 2)}
+        yield flag_call(rng, {"op": "project", "grid": g, "u": u, "centre": centre, "angle": angle,
+                              "rpc": "default" if (i % 5 == 0 and g["k"] in ("mask", "2d")) else bool(i % 2)})
     # ---- relocate_to_radial_minimum alone
     npf = near_pts(RMINS)
     for i in range(100 * N):
@@ -1136,7 +1182,7 @@ def gen_inputs(tier, rng):
         rad = ["euclid"] if i % 4 else ["ellip", rng.choice(["2", "1/2"])]
         u = rand_ufun(rng, rng.choice("VP")) if i % 3 else IDENT
         g = add_sub(rng, g); u = flag_u(rng, u, g, "relocate")
-        yield {"op": "relocate", "grid": g, "u": u, "rmin": rmin, "rad": rad}
+        yield flag_call(rng, {"op": "relocate", "grid": g, "u": u, "rmin": rmin, "rad": rad})
     # ---- the stack to_X(transform(relocate(f))), plain and nested
     for i in range(120 * N):
         dec = decs[i % 3]
@@ -1154,13 +1200,15 @@ def gen_inputs(tier, rng):
         if g["k"] == "1d" and dec == "vector": dec = "array"
         g = add_sub(rng, g)
         u = flag_u(rng, rand_ufun(rng, "V" if dec == "array" else "P"), g, "stack")
-        yield {"op": "stack", "dec": dec, "grid": g, "u": u, "rmin": rmin, "centre": [S(centre[0]), S(centre[1])],
-               "angle": list(rng.choice(ANGLES)), "nested": bool(i % 2)}
+        yield flag_call(rng, {"op": "stack", "dec": dec, "grid": g, "u": u, "rmin": rmin, "centre": [S(centre[0]), S(centre[1])],
+                              "angle": list(rng.choice(ANGLES)), "nested": bool(i % 2)})
     # ---- directed sweep: every decorator stream x every accepted class x every way of being a SUBCLASS instance of it
     yield from sub_sweep(rng, N)
-    # ---- histories: grid and profile OBJECTS that live through several calls and in-place edits
+    # ---- histories: grid and profile OBJECTS that live through several calls and in-place edits; interleaved (the scaled ones
+    #      are the most expensive cases to evaluate: spread over the shards) with the same at other orders of magnitude
+    #      (tiny: the shipped radial minima are 1e-8; huge)
+    j = 0
     for i in range(110 * N):
         yield rand_hist(rng, force_native1d=(i % 5 == 0), kinds=("1d",) if i % 5 == 0 else ("mask", "2d", "irr", "1d", "raw"))
-    # ---- the same at other orders of magnitude (tiny: the shipped radial minima are 1e-8; huge)
-    for i in range(45 * N):
-        yield rand_hist(rng, e=UNITS[i % len(UNITS)], min_calls=1)
+        if i % 5 in (1, 3) and j < 44 * N:
+            yield rand_hist(rng, e=UNITS[j % len(UNITS)], min_calls=1); j += 1
